@@ -17,7 +17,7 @@ Log == ndJsonDeserialize("trace.ndjson")
 VARIABLES l, viol
 tvars == <<vars, l, viol>>
 
-TraceInit == l = 1 /\ viol = {} /\ known = TRUE /\ route = "local" /\ ups = "ok" /\ upgrade = "none"
+TraceInit == l = 1 /\ viol = {} /\ known = TRUE /\ route = "local" /\ ups = "ok" /\ upgrade = "none" /\ client = "stays"
 
 UpgOf(c) == IF c = "slow-upgrade" THEN "websocket" ELSE IF c = "slow-other-upgrade" THEN "other" ELSE "none"
 
@@ -27,7 +27,13 @@ UpsOf(c) == IF c \in {"absent", "goaway", "close-early", "close-mid", "slow"} TH
 
 Violations(e) ==
   LET want == Answer(e.case # "no-endpoint", UpsOf(e.case), UpgOf(e.case)) IN
-  IF e.case = "transparent"
+  IF e.case = "half-close"
+  THEN \* the upstream's own answer, or the request was abandoned and piko says so: nothing else
+       (IF ~(\/ ("upstream" \in Answers(TRUE, "ok", "none", "half-close") /\ e.status = e.wantSt)
+             \/ ("502" \in Answers(TRUE, "ok", "none", "half-close") /\ e.status = 502))
+        THEN {"StatusMapping"} ELSE {})
+       \cup (IF e.tookMs > e.limitMs THEN {"NoHang"} ELSE {})
+  ELSE IF e.case = "transparent"
   THEN (IF e.fields # <<>> THEN {"Transparent"} ELSE {})
        \cup (IF e.status # e.wantSt THEN {"StatusPassedThrough"} ELSE {})
        \cup (IF e.servedE # e.target THEN {"ServedByTheEndpoint"} ELSE {})
@@ -48,6 +54,7 @@ TraceNext ==
      /\ route' = IF e.op = "Http" THEN e.route ELSE "local"
      /\ ups' = IF e.op = "Http" THEN UpsOf(e.case) ELSE "ok"
      /\ upgrade' = IF e.op = "Http" THEN UpgOf(e.case) ELSE "none"
+     /\ client' = IF e.op = "Http" /\ e.case = "half-close" THEN "half-close" ELSE "stays"
      /\ viol' = IF e.op = "Http" THEN Violations(e) ELSE {}
 TraceSpec == TraceInit /\ [][TraceNext]_tvars
 
